@@ -1619,7 +1619,8 @@ def _run_inplace(ix, mod, cls, fn, builder):
     return res
 
 
-def rule_inplace(ctx, pending=False, floor=None):
+def rule_inplace(ctx, pending=False, floor=None, tolerant=False):
+    """tolerant: a tree outside the modelled subset is an info line, not an ANALYSIS-ERROR (for the property that registers this rule next to another rule deciding the same trees)"""
     rid = 'C01-INPLACE-NAME' if pending else 'C01-INPLACE'
     r = Rule(rid, '`target OP= rhs` expanded into `target = target OP rhs` (ExpandInplaceOperators): for every kind of target and operand the operands of the target are '
              'evaluated once, in source order, before the right-hand side; only the store follows it; every temporary is bound'
@@ -1637,6 +1638,9 @@ def rule_inplace(ctx, pending=False, floor=None):
         try:
             res = _run_inplace(ix, mod, cls, fn, builder)
         except TBGiveUp as e:
+            if tolerant:
+                r.info('%s: %s leaves the modelled subset of the tree-builder interpreter for target %s: %s; not decided here' % (rid, hname, skey, e))
+                continue
             raise AnalysisError('%s: %s leaves the modelled subset of the tree-builder interpreter for target %s: %s' % (rid, hname, skey, e))
         expanded = 0
         relevant = False
@@ -1655,6 +1659,9 @@ def rule_inplace(ctx, pending=False, floor=None):
             try:
                 probs = inplace_problems(v, h['t'], h['units'], h['pos'], h['comp'])
             except Undecidable as e:
+                if tolerant:
+                    r.info('%s: the tree built for target %s is outside the modelled node classes: %s; not decided here' % (rid, skey, e))
+                    continue
                 raise AnalysisError('%s: the tree built for target %s is outside the modelled node classes: %s' % (rid, skey, e))
             for p, okind, k, msg in probs:
                 fc = inplace_finding_class(p, okind, k)
